@@ -57,6 +57,26 @@ fn allowed_generated(item: &Value) -> bool {
 
 pub struct Cmp {
     pub resolve_type: bool,
+    /// syntax context of the `defineComponent` binding imported by name from "vue" (only calls
+    /// of that binding may be augmented)
+    pub dc_ctxt: Option<u64>,
+}
+
+/// find `import { defineComponent } from "vue"` in a module body and return the local's ctxt
+pub fn vue_define_component_ctxt(body: &Value) -> Option<u64> {
+    for item in body.as_array()? {
+        if ty(item) == "ImportDeclaration" && item["source"]["value"].as_str() == Some("vue") {
+            for sp in item["specifiers"].as_array()? {
+                if ty(sp) == "ImportSpecifier"
+                    && sp["imported"].is_null()
+                    && sp["local"]["value"].as_str() == Some("defineComponent")
+                {
+                    return sp["local"]["ctxt"].as_u64();
+                }
+            }
+        }
+    }
+    None
 }
 
 impl Cmp {
@@ -99,7 +119,12 @@ impl Cmp {
                     return Err(format!("{path}: node type {it:?} became {ot:?}"));
                 }
                 // resolveType: calls of `defineComponent` may gain / wrap their second argument
-                if self.resolve_type && it == "CallExpression" && ident_name(&inp["callee"]) == Some("defineComponent") {
+                if self.resolve_type
+                    && it == "CallExpression"
+                    && ident_name(&inp["callee"]) == Some("defineComponent")
+                    && self.dc_ctxt.is_some()
+                    && inp["callee"]["ctxt"].as_u64() == self.dc_ctxt
+                {
                     return self.embed_define_component(inp, out, path);
                 }
                 for (k, iv) in i {
